@@ -16,6 +16,8 @@ if args[:1] == ["-j"]:
     args = args[2:]
 jobs = [(d, p) for d in args for p in sorted(glob.glob(d + "/patch*.diff"))]
 claimed = [c["property_id"] for c in json.load(open("/verif/MANIFEST.json"))["checks"]]
+if os.environ.get("BENIGN_CHECKS"):          # restrict the replay to some checks (after a change that can only affect those)
+    claimed = [c for c in claimed if c in os.environ["BENIGN_CHECKS"].split(",")]
 SCR = "/tmp/benign_scratch"
 shutil.rmtree(SCR, ignore_errors=True)
 os.makedirs(SCR)
